@@ -1228,7 +1228,10 @@ fn arg_layout_compatible(
             effective_a2.verify_backward_compatible(effective_version, effective_b2, is_return_position)?;
             Ok(true)
         }
-        (a, b) => Ok(a.layout_compatible(b)),
+        // Passing by reference also requires that each side's memory layout is the layout
+        // of the negotiated version: two sides at different versions can have structurally
+        // identical layouts whose fields mean different things.
+        (a, b) => Ok(a.layout_compatible(b) && a == a_effective && b == b_effective),
     }
 }
 
